@@ -206,6 +206,7 @@ class Engine:
         self.max_paths = max_paths
         self.max_depth = max_depth
         self.fn_text = {}
+        self.ac_def = {}
         self.adts = {}
         self.evals = {}
         self.by_path = {}
@@ -336,6 +337,7 @@ class Engine:
                         return I(int(e["val"]), ty)
                     if "bytes" in e:
                         return ("constref", text)
+            self.ac_def[text] = c["def"]
             return ("ac", text, args)
         if c.get("tyconst"):
             return ("cg", c["tyconst"])
